@@ -85,6 +85,14 @@ def suite_rel(g, tier, rnd):
                         if k == 'none':
                             ls += ['R %d %d none' % (tok, c) for c in range(1, cfg['mr'] + 1)]
                     g.case('rel.twosessions', cfg, ls, ns=2, nsess=2)
+    # R3b: an ACK / RST carrying the right message id but coming from another peer (other session) concludes nothing
+    for cfg in (CFGS[2], CFGS[7]):
+        for kind in ('xack', 'xrst'):
+            for d in (10, 1500):
+                for tb in (0, 300):
+                    ls = ['A 0 0 CON 17', 'A %d 1 CON 18' % tb, 'R 17 0 %s+%d' % (kind, d), 'R 18 0 ack+%d' % (d + 5),
+                          'R 17 1 ack+10']
+                    g.case('rel.otherpeer', cfg, ls, ns=1, nsess=2)
     # R4: duplicated / delayed acknowledgements and duplicated requests
     for cfg in (CFGS[0], CFGS[1]):
         a = cfg['ato']
